@@ -260,17 +260,66 @@ def crashIn (impl : Impl) (fs : Fs) (s : Step) (k : Nat) (cut : Option Nat) : Fs
   let atoms := atomsAll (exec impl fs s).calls.flatten
   (runSome fs (crashOps atoms k cut)).1
 
-/-- an event of a crash-recovery history: a step that runs to its end (successfully or raising), or a step during
-which the process dies (`k` atomic micro-ops completed, optionally `cut` bytes of the next write) and after which a
-new process carries on with whatever is on disk -/
+/-! ### transient I/O faults
+
+A file-system call of the step raises an `OSError` (EMFILE, EACCES, EIO, ESTALE, …) ONCE and the process lives on.  What
+the code that exists does with it, call by call:
+
+  * a listing scan (`Registry._listing`: `iterdir`, `is_dir`, `exists` of the matchers) swallows `FileNotFoundError` only
+    (a level that does not exist yet lists as empty — legitimately: ENOENT is the truth there) and turns
+    `NotADirectoryError` into `Level.Invalid`; every other `OSError` propagates: `Project.put`, `Release.put`,
+    `Level.key` fail before anything is written;
+  * `pathlib.Path.mkdir(parents=True, exist_ok=True)` swallows the error of an `os.mkdir` whose target already is a
+    directory (no micro-operation of the model: nothing to do there) and re-raises every other one;
+  * `exists()` / `rename` / `open` / `write` in `write`, `close`, `push` propagate: the call stops after the
+    micro-operations it has completed;
+  * `shutil.rmtree(staged, ignore_errors=True)` swallows it: the left-over stays and the `makedirs` of `copytree` raises
+    `FileExistsError` right away — observably the same as raising at the `rmtree`;
+  * `shutil.copytree` COLLECTS the error of a member copy, copies the remaining members and raises `shutil.Error` at
+    its end — before the `rename` that would make the package visible.
+
+So a faulted step stops after `j` completed atomic micro-operations and raises — inside `copytree` it goes on with the
+other members first — and never reaches the operation that publishes the new item. -/
+
+def isMemberPath (p : Path) : Bool :=
+  match p.getLast? with
+  | some (.member _) => true
+  | _ => false
+
+/-- the copies of the OTHER package members that `copytree` still performs after the copy at `p` has failed -/
+def memberRest (p : Path) (rest : List Op) : List Op :=
+  rest.filter (fun op => match op with
+    | .createEmpty q => isMemberPath q && q != p
+    | .append q _ => isMemberPath q && q != p
+    | _ => false)
+
+/-- the atomic micro-operations performed when a transient I/O error hits the `j`-th one -/
+def faultAtoms (atoms : List Op) (j : Nat) : List Op :=
+  atoms.take j ++
+    (match atoms[j]? with
+     | some (.createEmpty p) => if isMemberPath p then memberRest p (atoms.drop (j + 1)) else []
+     | some (.append p _) => if isMemberPath p then memberRest p (atoms.drop (j + 1)) else []
+     | _ => [])
+
+/-- the tree left by a step in which the file-system call that would have been its `j`-th atomic micro-operation (or a
+read between the `j-1`-th and the `j`-th) raised a transient `OSError`: the step raises, the process lives on -/
+def faultIn (impl : Impl) (fs : Fs) (s : Step) (j : Nat) : Fs :=
+  (runSome fs (faultAtoms (atomsAll (exec impl fs s).calls.flatten) j)).1
+
+/-- an event of a history: a step that runs to its end (successfully or raising), a step during which the process dies
+(`k` atomic micro-ops completed, optionally `cut` bytes of the next write) and after which a new process carries on with
+whatever is on disk, or a step hit by a transient I/O fault at its `j`-th atomic micro-operation (it raises; the process
+lives on) -/
 inductive Ev where
   | step (s : Step)
   | crash (s : Step) (k : Nat) (cut : Option Nat)
+  | fault (s : Step) (j : Nat)
   deriving Repr, Inhabited
 
 def apply (impl : Impl) (fs : Fs) : Ev → Fs
   | .step s => (exec impl fs s).fs
   | .crash s k cut => crashIn impl fs s k cut
+  | .fault s j => faultIn impl fs s j
 
 /-- the tree after a crash-recovery history -/
 def play (impl : Impl) : Fs → List Ev → Fs
